@@ -609,7 +609,7 @@ class Interp:
             # lazily materialised field of an opaque value: stable per (ident, path)
             key = ('opaque_field', v.ident, p)
             if key not in st.ghost:
-                st.ghost[key] = Opaque(v.tag + '.' + str(p))
+                st.ghost[key] = Opaque(v.tag + '.' + str(p), info=('fieldof', v, p))
             return st.ghost[key]
         if isinstance(p, tuple) and p[0] == 'i':
             if isinstance(v, Agg):
@@ -1345,7 +1345,7 @@ class Interp:
     def shared_op(self, st, obj, opname, op, res_sorts, label=None, free=None, info=None):
         """operation on a modelled shared object: executes on State.objs (sequential mode) or emits an event whose results are
         fresh variables (event mode, see conc.py)"""
-        if self.event_mode:
+        if self.event_mode and obj.oid not in st.objs:
             from conc import Event
             res = {}
             for k, srt in res_sorts.items():
